@@ -465,6 +465,71 @@ def r_wellformed(ctx, model):
                     reported += 1
                     ctx.violation(f"{q}:{n.id}:undefined", Where(mod.rel, q, n.lineno), expected="a defined name", found=f"'{n.id}' is not defined in any enclosing scope",
                                   explanation=f"name '{n.id}' used in {q} is not bound anywhere (NameError at run time)", instance=f"X4 {mname}:{q}:{n.id}")
+    # X2 (attribute existence): in a class whose bases are all repository classes (so every attribute it can have is visible) and
+    # which has no __getattr__, an attribute read through self that no method assigns, no class body defines and no module-level
+    # setattr installs does not exist: AttributeError whenever that method runs
+    nclasses = 0
+    # attributes stored on some object from outside its class (`task.calculator.modulus = ...`): names stored through anything but self
+    stored_elsewhere = set()
+    for mname, mod in model.mods.items():
+        for x in ast.walk(mod.tree):
+            if isinstance(x, ast.Attribute) and isinstance(x.ctx, (ast.Store, ast.Del)) and not (isinstance(x.value, ast.Name) and x.value.id in ("self", "cls")):
+                stored_elsewhere.add(x.attr)
+            if isinstance(x, ast.Call) and isinstance(x.func, ast.Name) and x.func.id == "setattr" and len(x.args) >= 2 and isinstance(x.args[1], ast.Constant):
+                stored_elsewhere.add(x.args[1].value)
+    for mname, mod in sorted(model.mods.items()):
+        if mname in DEAD_MODULES:
+            continue
+        for cname in mod.classes:
+            cref = f"{mname}:{cname}"
+            mro = model.mro(cref)
+            if any(c.startswith("ext:") and not c.endswith(("object", "ABC")) for c in mro):
+                continue
+            if model.find_member(cref, "__getattr__")[1] is not None or model.find_member(cref, "__getattribute__")[1] is not None:
+                continue
+            nclasses += 1
+            defined, reads = set(), {}
+            for c in mro:
+                if c.startswith("ext:"):
+                    continue
+                cm, cq = c.split(":")
+                cnode = model.cls(c)
+                for st in cnode.body:
+                    if isinstance(st, (ast.FunctionDef, ast.AsyncFunctionDef, ast.ClassDef)):
+                        defined.add(st.name)
+                    for t in (st.targets if isinstance(st, ast.Assign) else ([st.target] if isinstance(st, ast.AnnAssign) else [])):
+                        for x in ast.walk(t):
+                            if isinstance(x, ast.Name):
+                                defined.add(x.id)
+                for q2, g in model.mods[cm].funcs.items():
+                    if not q2.startswith(cq + ".") or not g.args.args:
+                        continue
+                    sn = g.args.args[0].arg
+                    for x in ast.walk(g):
+                        if isinstance(x, ast.Attribute) and isinstance(x.value, ast.Name) and x.value.id == sn:
+                            if isinstance(x.ctx, (ast.Store, ast.Del)):
+                                defined.add(x.attr)
+                            elif c == cref:
+                                reads.setdefault(x.attr, (q2, x))
+                        if isinstance(x, ast.Call) and isinstance(x.func, ast.Name) and x.func.id in ("setattr", "getattr", "hasattr") and x.args \
+                                and isinstance(x.args[0], ast.Name) and x.args[0].id == sn:
+                            defined.add("*")
+                # installed from module level
+                for st in model.mods[cm].tree.body:
+                    for x in ast.walk(st):
+                        if isinstance(x, ast.Call) and isinstance(x.func, ast.Name) and x.func.id == "setattr" and x.args and isinstance(x.args[0], ast.Name) and x.args[0].id == cq:
+                            defined.add("*")
+            if "*" in defined:
+                continue
+            for attr, (q2, node) in sorted(reads.items()):
+                if attr in defined or attr.startswith("__") or attr in stored_elsewhere:
+                    continue
+                reported += 1
+                ctx.violation(f"{q2}:self.{attr}:missing", Where(mod.rel, q2, node.lineno), expected=f"an attribute assigned by some method of {cname} (or defined in its class body)",
+                              found=f"self.{attr} is read in {q2} but never assigned or defined",
+                              explanation=f"{cname}.{attr} does not exist (no method assigns it, the class body does not define it): {q2} raises AttributeError whenever it runs",
+                              instance=f"X2 {mname}:{q2}:self.{attr}")
+    ctx.extra["classes_checked_X2"] = nclasses
     ctx.extra["functions_checked_X1_X4"] = nf
     ctx.extra["suppressed_by_name"] = suppressed
     if reported == 0:
